@@ -48,9 +48,13 @@ class PropertyModTrackerPlugin(Plugin):
     def after_create_version_object(self, uow, parent_obj, version_obj):
         session = sa.orm.object_session(parent_obj)
         is_deleted = parent_obj in session.deleted
+        # An inserted object only carries history for the attributes that
+        # were assigned; its version nevertheless differs from nothing in
+        # every column (native versioning flags all columns on insert too).
+        is_new = parent_obj in session.new
 
         for prop in versioned_column_properties(parent_obj):
-            if has_changes(parent_obj, prop.key) or is_deleted:
+            if has_changes(parent_obj, prop.key) or is_deleted or is_new:
                 setattr(
                     version_obj,
                     prop.key + self.column_suffix,
